@@ -48,6 +48,10 @@ CLAIMS = {
                 text='After every history of the C08 alphabet (depth<=4) and after singular / failed-allocation / expert-driver / other-size calls, a fixed probe (first factorization + solves) must produce bit-identical L, U, permutations and solutions to the same probe in a freshly forked process.', ref='5 C18'),
     'C19': dict(cat='exploration', engine='mckern', tech='bounded-exhaustive enumeration of small matrices/factors x the full argument grid of each kernel against dense long-double definitions',
                 text='sp_?gemv / sp_?gemm on all patterns m,n<=3 x op {N,T,C} x alpha/beta incl. 0,1 x increments +-1,+-2 x leading dimensions (padding checked); sp_?trsv for all (uplo,trans,diag) on the real supernodal factors of every nonsingular pattern n<=4 x factor options; ?langs all norms; row-to-column conversion, copy and permuted-view constructors; 4 precisions; each call fork-isolated.', ref='5 C19'),
+    'C10': dict(cat='exploration', engine='mcorder', tech='bounded-exhaustive enumeration of all small patterns x orderings against a brute-force symbolic-Cholesky reference',
+                text='All 0/1 patterns m,n<=4 (thorough: all full-diagonal 5x5) x get_perm_c 0..3 x symmetric mode x every caller ordering: bijection, A*Pc shares and does not alter A, ordering changed only by a postorder, reported etree = etree of (A*Pc)^T(A*Pc) (or of Pc(A+A^T)Pc^T) with contiguous subtrees, partition into consecutive blocks.', ref='5 C10'),
+    'C20': dict(cat='exploration', engine='mcread', tech='bounded-exhaustive enumeration of small matrices x file layouts written by an independent writer, read back through stdin',
+                text='All matrices m,n<=3 x every integer/real edit descriptor family, exponent letters, header variants, RHS line, type codes, for ?readhb, ?readrb, ?readmt in 4 precisions: same dimensions, nnz and (row, col, value) set with values equal to the printed decimals; hangs at end-of-file and crashes attributed per file.', ref='5 C20'),
     'C09': dict(cat='exploration', tech='bounded-exhaustive enumeration; the statement implemented literally as a checker on every returned factorization',
                 text='wellformed(L,U,perm_r,perm_c) checks bijections, supernode partition/maps, row-list shape, U placement, extent disjointness, nnz fields and dependency order on every '
                      'successful factorization of the C02 enumeration (first-time; refactored ones in C08).', ref='5 C09'),
@@ -94,6 +98,8 @@ def main():
             {'name': 'mcargs', 'path': 'engines/mcargs', 'serves_properties': ['C15'], 'kind_free_text': 'Engine Q: illegal-argument enumeration (singles and ordered pairs) with side-effect / leak oracles'},
             {'name': 'mchist', 'path': 'engines/mchist', 'serves_properties': ['C08', 'C17', 'C18'], 'kind_free_text': 'Engine Q: call-history enumeration (first factor / refactor / solve / destroy) with per-call oracles, allocator model and fresh-process differential probe'},
             {'name': 'mckern', 'path': 'engines/mckern', 'serves_properties': ['C19'], 'kind_free_text': 'Engine Q: sparse kernels / norms / format conversions vs dense long-double definitions (delegated build, reviewed)'},
+            {'name': 'mcorder', 'path': 'engines/mcorder', 'serves_properties': ['C10'], 'kind_free_text': 'Engine Q: orderings / etree / postorder / partition vs brute-force reference (delegated build, reviewed)'},
+            {'name': 'mcread', 'path': 'engines/mcread', 'serves_properties': ['C20'], 'kind_free_text': 'Engine Q: file readers vs independent writer (delegated build, reviewed)'},
             {'name': 'mcseq', 'path': 'engines/mcseq', 'serves_properties': ['C01', 'C02', 'C05', 'C06', 'C09', 'C16'],
              'kind_free_text': 'Engine Q: bounded-exhaustive enumeration of inputs, options, call histories and faults of the sequential API against long-double reference models, crash-isolated'},
         ],
